@@ -57,6 +57,11 @@ def run(tier, seed):
     obs = lib.read_ndjson(obs_path)
     if any("tool_error" in o for o in obs):
         raise lib.ToolError("connection harness could not connect to the scripted peer")
+    inj = [o for o in obs if o.get("id") == -1]
+    obs = [o for o in obs if o.get("id") != -1]
+    if len(inj) != 2 or any(o["failed_operations_injected"] < 10 for o in inj):
+        raise lib.ToolError(f"the operations meant to fail in the encoder did not fail: {inj}")
+    v.cov["operations_issued_after_failed_ones"] = sum(1 for o in obs if o.get("after_failed_operations"))
     # frames -> TLA+ reader
     to_parse = []
     for j, o in enumerate(obs):
@@ -81,6 +86,8 @@ def run(tier, seed):
         op = ops[o["id"]]
         v.case(json.dumps([o["mode"], o.get("offer"), op["op"], op["b"], op["c"]])[:3000])
         case = {"operation": op["op"], "mode": o["mode"], "args": E.short([op["b"], op["c"]], 300)}
+        if o.get("after_failed_operations"):
+            case["issued_after"] = "two sends that fail (or may fail) in the encoder: over-long atom, 300 distinct atoms"
         if o.get("offer"):
             case["distribution_header_capability_offered_by"] = o["offer"]
         if o["mode"].startswith("refused:"):
